@@ -25,7 +25,7 @@ theorem inv_step (s s' : St) (l : Lbl) (h : Inv s) (hs : step s l = some s') : I
   | wakeSpin t => exact p_wakeSpin s s' t h hs
   | wakeDeq t x => exact p_wakeDeq s s' t x h hs
   | clearBit t => exact p_clearBit s s' t h hs
-  | wakePush t x => exact p_wakePush s s' t x h hs
+  | wakePush x => exact p_wakePush s s' x h hs
 
 /-- the invariant holds in every reachable state (any threads, any schedule, any length) -/
 theorem reachable_inv (s : St) (h : Reachable step init s) : Inv s :=
@@ -85,40 +85,43 @@ theorem C04_acquire_only_when_free (s s' : St) (h : Reachable step init s) (t : 
 theorem C04_waiter_accounting (s : St) (h : Reachable step init s) :
     s.word / 2 + (if s.uwf = true then 1 else 0) = s.anns.length + s.q.length ∧
     (∀ t, t ∈ s.anns ↔ (s.pc t = .ann ∨ s.pc t = .annSw)) ∧
-    (∀ t, s.pc t = .asleep ↔ (t ∈ s.q ∨ t ∈ s.woken)) ∧ s.q.Nodup ∧ s.woken.Nodup ∧
-    (∀ t, t ∈ s.q → t ∉ s.woken) := by
+    (∀ t, s.pc t = .asleep ↔ (t ∈ s.q ∨ t ∈ s.woken ∨ t ∈ s.ready)) ∧ s.q.Nodup ∧ s.woken.Nodup ∧
+    s.ready.Nodup ∧ (∀ t, t ∈ s.q → (t ∉ s.woken ∧ t ∉ s.ready)) ∧ (∀ t, t ∈ s.woken → t ∉ s.ready) := by
   have hi := reachable_inv s h
-  refine ⟨hi.acct, hi.annM, ?_, hi.qN, hi.wkN, hi.qw⟩
+  refine ⟨hi.acct, hi.annM, ?_, hi.qN, hi.wkN, hi.rdN, hi.qw, hi.wr⟩
   intro t
   constructor
   · exact hi.asl t
-  · rintro (h | h)
+  · rintro (h | h | h)
     · exact hi.qA t h
     · exact hi.wkA t h
+    · exact hi.rdA t h
 
 /-- **no lost wake-up (invariant form)**: whenever threads are blocked or about to block on the
-    mutex, either somebody owns the bit (and its unlock will see the waiters) or a thread is
-    active on it (a woken thread, or an unlocker about to push one) -/
+    mutex, either somebody owns the bit (and its unlock will see the waiters), or a dequeued
+    thread is about to be pushed to a run queue, or a thread is active in its lock loop -/
 theorem C04_waiters_have_hope (s : St) (h : Reachable step init s)
     (hw : (∃ t, s.pc t = .asleep ∧ t ∈ s.q) ∨ (∃ t, s.pc t = .ann ∨ s.pc t = .annSw)) :
-    (∃ t, ownsBit (s.pc t) = true) ∨ (∃ t, active (s.pc t) = true) := by
+    (∃ t, ownsBit (s.pc t) = true) ∨ s.ready ≠ [] ∨ (∃ t, active (s.pc t) = true) := by
   have hi := reachable_inv s h
   have : s.q ≠ [] ∨ s.anns ≠ [] := by
     rcases hw with ⟨t, _, ht⟩ | ⟨t, ht⟩
     · exact Or.inl (List.ne_nil_of_mem ht)
     · exact Or.inr (List.ne_nil_of_mem ((hi.annM t).mpr ht))
-  rcases hi.hope this with ho | ha
+  rcases hi.hope this with ho | hr | ha
   · left
     cases hown : s.owner with
     | none => exact absurd hown ho
     | some t => exact ⟨t, (hi.own t).mpr hown⟩
-  · exact Or.inr ha
+  · exact Or.inr (Or.inl hr)
+  · exact Or.inr (Or.inr ha)
 
-/-- **no lost wake-up (stuck-freedom)**: in a reachable state where no operation is in flight and
-    nobody holds the mutex (every thread is idle or asleep), nobody is asleep.  Hence in a
-    workload whose holders eventually unlock, a sleeper can never be left behind. -/
+/-- **no lost wake-up (stuck-freedom)**: in a reachable state where no operation is in flight,
+    no push of a dequeued thread is pending and nobody holds the mutex (every thread is idle or
+    asleep), nobody is asleep.  Hence in a workload whose holders eventually unlock, a sleeper can
+    never be left behind. -/
 theorem C04_no_lost_wakeup (s : St) (h : Reachable step init s)
-    (hq : ∀ t, s.pc t = .idle ∨ s.pc t = .asleep) : ∀ t, s.pc t = .idle := by
+    (hq : ∀ t, s.pc t = .idle ∨ s.pc t = .asleep) (hr : s.ready = []) : ∀ t, s.pc t = .idle := by
   have hi := reachable_inv s h
   have hno : ∀ t, ownsBit (s.pc t) = false ∧ active (s.pc t) = false := by
     intro t; rcases hq t with e | e <;> simp [e, ownsBit, active]
@@ -127,8 +130,9 @@ theorem C04_no_lost_wakeup (s : St) (h : Reachable step init s)
     | nil => rfl
     | cons x r =>
       have hx : x ∈ s.q := by simp [hql]
-      rcases C04_waiters_have_hope s h (Or.inl ⟨x, hi.qA x hx, hx⟩) with ⟨t, ht⟩ | ⟨t, ht⟩
+      rcases C04_waiters_have_hope s h (Or.inl ⟨x, hi.qA x hx, hx⟩) with ⟨t, ht⟩ | hrd | ⟨t, ht⟩
       · simp [(hno t).1] at ht
+      · exact absurd hr hrd
       · simp [(hno t).2] at ht
   have hw0 : s.woken = [] := by
     cases hwl : s.woken with
@@ -139,9 +143,10 @@ theorem C04_no_lost_wakeup (s : St) (h : Reachable step init s)
   intro t
   rcases hq t with e | e
   · exact e
-  · rcases hi.asl t e with h1 | h1
+  · rcases hi.asl t e with h1 | h1 | h1
     · simp [hq0] at h1
     · simp [hw0] at h1
+    · simp [hr] at h1
 
 /-- **trylock never blocks**: a trylock/timedlock access never announces, enqueues or puts the caller to sleep -/
 theorem C04_trylock_nonblocking (s s' : St) (t : Tid) (v : Nat) (ok : Bool)
@@ -171,32 +176,35 @@ theorem C04_trylock_fails_only_if_held (s s' : St) (h : Reachable step init s) (
     rw [← hc.1]; exact hb
   · simp at hs
 
-/-- **sleepers do not occupy a worker**: a thread asleep on the mutex performs no access at all
-    until an unlocker has pushed it back (its program counter is changed only by `wakePush`) -/
+/-- **sleepers do not occupy a worker**: a thread asleep on the mutex performs no access at all;
+    the only label that concerns it is its being pushed back to a run queue by a worker -/
 theorem C04_sleepers_off_worker (s : St) (t : Tid) (l : Lbl) (ha : s.pc t = .asleep)
-    (hl : l.actor = t) : step s l = none := by
-  cases l <;> simp only [Lbl.actor] at hl <;> subst hl <;> simp [step, ha]
+    (hl : l.actor = t) (hp : ∀ x, l ≠ .wakePush x) : step s l = none := by
+  cases l <;> simp only [Lbl.actor] at hl <;> subst hl <;> first | (exact absurd rfl (hp _)) | (simp [step, ha])
 
-/-- a woken thread is handed to the scheduler exactly once: when it is pushed it leaves both the
-    queue and the set of dequeued-not-yet-pushed threads, and re-enters its lock loop -/
-theorem C04_wake_exactly_once (s s' : St) (h : Reachable step init s) (t x : Tid)
-    (hs : step s (.wakePush t x) = some s') :
-    s.pc x = .asleep ∧ x ∉ s.q ∧ x ∈ s.woken ∧ x ∉ s'.woken ∧ x ∉ s'.q ∧ s'.pc x = .lretry := by
+/-- a woken thread is handed to the scheduler exactly once: it is pushed only from the set of
+    dequeued threads whose unlocker has cleared the lock bit (never before), leaves that set, is
+    in no queue afterwards, and re-enters its lock loop -/
+theorem C04_wake_exactly_once (s s' : St) (h : Reachable step init s) (x : Tid)
+    (hs : step s (.wakePush x) = some s') :
+    s.pc x = .asleep ∧ x ∉ s.q ∧ x ∉ s.woken ∧ x ∈ s.ready ∧ x ∉ s'.ready ∧ x ∉ s'.q ∧ s'.pc x = .lretry := by
   have hi := reachable_inv s h
-  have hi' := inv_step s s' _ hi hs
   simp only [step] at hs
   split at hs
-  · rename_i hpc
-    simp at hs
-    have hxw : x ∈ s.woken := hi.car t x (Or.inr hpc)
-    have hxa := hi.wkA x hxw
-    have hxt : x ≠ t := by intro e; subst e; simp [hpc] at hxa
-    have hnq : x ∉ s.q := fun hq => hi.qw x hq hxw
-    subst hs
-    refine ⟨hxa, hnq, hxw, ?_, hnq, ?_⟩
-    · simp only; intro hm; exact ((List.Nodup.mem_erase_iff hi.wkN).mp hm).1 rfl
-    · simp [hxt]
+  · rename_i hx
+    simp at hs; subst hs
+    refine ⟨hi.rdA x hx, fun hq => (hi.qw x hq).2 hx, fun hw => hi.wr x hw hx, hx, ?_, fun hq => (hi.qw x hq).2 hx, by simp⟩
+    simp only; intro hm; exact ((List.Nodup.mem_erase_iff hi.rdN).mp hm).1 rfl
   · simp at hs
+
+/-- the lock bit is cleared after the dequeue and before the push (helper about this
+    implementation's order): a thread is pushed only after the unlocker that dequeued it cleared the bit -/
+theorem C04_push_after_clear (s : St) (h : Reachable step init s) (u x : Tid) (hu : s.pc u = .uc x) :
+    x ∈ s.woken ∧ x ∉ s.ready ∧ step s (.wakePush x) = none := by
+  have hi := reachable_inv s h
+  have hw := hi.car u x hu
+  have hnr := hi.wr x hw
+  exact ⟨hw, hnr, by simp [step, hnr]⟩
 
 /-! ### non-vacuity: a reachable state with an owner, a sleeper and an announced thread -/
 def demoTrace : List Lbl :=
@@ -208,7 +216,7 @@ example : ∃ s, runs step init demoTrace = some s ∧ s.word = 5 ∧ s.q = [2] 
 
 /-- the full hand-over: unlock with a sleeper wakes it and it acquires the mutex -/
 example : ∃ s, runs step init (demoTrace ++ [.blockBegin 3, .cbEnq 3, .unlockRead 1 5, .unlockCas2 1 true,
-    .wakeDeq 1 2, .clearBit 1, .wakePush 1 2, .lockRead 2 2, .lockCas1 2 true]) = some s ∧
+    .wakeDeq 1 2, .clearBit 1, .wakePush 2, .lockRead 2 2, .lockCas1 2 true]) = some s ∧
     s.word = 3 ∧ s.q = [3] ∧ s.pc 2 = .hold ∧ s.pc 1 = .idle := by
   refine ⟨_, rfl, ?_⟩; decide
 
